@@ -261,6 +261,11 @@ def run(ctx):
     ctx.floor("R4.7", "write-path functions inspected", n_fn, 6)
     ctx.ok("R4.7", "write-path:handlers", f"{n_fn} write-path functions inspected", None)
 
+    # ------------------------------------------------------------------ R4.8 a record whose descriptor frame was lost fails, it is not decoded with a namesake
+    from .c03 import check_lookup_by_identifier
+
+    check_lookup_by_identifier(ctx, "R4.8")
+
     # ------------------------------------------------------------------ R4.6 no buffering layer over a raising decompressor
     ctx.rule("R4.6", "read-mode gzip/bz2/lz4 decompressors are handed to the frame reader directly: an io.Buffered*/TextIOWrapper layer "
                      "around them fills its buffer with one large readinto(), and when the decompressor raises EOFError at a truncated end "
